@@ -190,7 +190,9 @@ def run(args):
             continue
         ncomp = sum(1 for p in parts if p[0] == 'comp')
         dist["components"][ncomp] = dist["components"].get(ncomp, 0) + 1
-        if "panic" in r or "exit" in r or "timeout" in r:
+        if "timeout" in r:
+            continue                     # no answer within the pool's limit (load): termination is C10's business
+        if "panic" in r or "exit" in r:
             V.violation("parse:crash", case, observed=str(r)[:300], what="a well-formed statement crashes or hangs the parser")
             continue
         if r.get("err") != "NO_ERROR_DURING_PARSING":
